@@ -23,6 +23,7 @@ func propC12(r *Report, tier string) {
 	rulePurgerCallers(r, "K7-purger-callers")
 	ruleRefPairing(r, "K1-ref-pairing")
 	ruleOpenedCollectionSwept(r, "K1-opened-collection-swept", "index/scorch")
+	ruleSegmentRefIffCarried(r, "K1-segment-ref-iff-carried", findIntroducers(r.P))
 	ruleDeferObservedErr(r, "K1-defer-observed-error", "index/scorch", "index/scorch/mergeplan", "index/upsidedown", "index/upsidedown/store/boltdb", "index/upsidedown/store/moss", "index/upsidedown/store/gtreap", "")
 	r.Floor("K7-who-may-remove-files", 3)
 	r.Floor("K5-purger-guards", 6)
